@@ -193,12 +193,15 @@ def run(chk, prog, tier):
     ABS.report(chk, res, ("IDX",), rule_map={"IDX": "PAD"}, fn_filter=lambda o: o["fn"] == roles.padder)
     from checks import C17
     C17.atomic_rule(chk, prog, [roles.room_check])
+    from valib import bytelen as BL
+    BL.usub_rule(chk, prog)
     chk.explanation = (
         "Decides: (GATE) in each emitter every call that stores into the buffer is dominated, with the position unchanged, by a "
         "passed room check for that position; (SHAPE) the store goes to <instance>->buffer + position and the position advances "
         "only by lengths actually written; (WHO) only the encoder and the padding writer store through byte pointers and they are "
         "called only from the emitters; (ROOM) the room test passes only when buffer_len - position >= K with K >= 20, an external "
         "buffer fails instead of growing; (SENT) a negative offset never becomes a write position; (PAD) the padding table index "
-        "is bounded. ASSUMED, not verified: K bytes suffice for the longest instruction the encoder can emit (a lower bound of 14 "
+        "is bounded; (USUB) the zero-padding counts `K - bytes` cannot wrap: the byte count is tested first or the emitted value "
+        "is at most K bytes wide by the type it has at every call site. ASSUMED, not verified: K bytes suffice for the longest instruction the encoder can emit (a lower bound of 14 "
         "bytes is checked).")
     chk.assumptions += ["no instruction plus padding written between two room checks exceeds the reserve K"]
